@@ -1,8 +1,25 @@
+mod exec;
 mod extract;
+mod gen;
 fn main() {
     let args: Vec<String> = std::env::args().collect();
     match args.get(1).map(|s| s.as_str()) {
         Some("extract") => extract::run(&args[2], &args[3], &args[4]),
-        _ => { eprintln!("usage: harness extract <repo> <out.lean> <out.json>"); std::process::exit(2) }
+        Some("run") => exec::run_stdin(),
+        Some("gen") => {
+            std::panic::set_hook(Box::new(|_| {}));
+            let seed: u64 = args[3].parse().unwrap();
+            let tier: u32 = args[4].parse().unwrap();
+            use std::io::Write;
+            let out = std::io::stdout();
+            let mut out = std::io::BufWriter::new(out.lock());
+            for l in gen::gen(&args[2], seed, tier) {
+                writeln!(out, "{}", l).unwrap();
+            }
+        }
+        _ => {
+            eprintln!("usage: harness extract <repo> <out.lean> <out.json> | run | gen <prop> <seed> <tier>");
+            std::process::exit(2)
+        }
     }
 }
